@@ -13,7 +13,7 @@ MAX = I64 - 1
 MIN = -I64
 ARITH = ["+", "-", "*", "/", "%"]
 CMP = ["<", "<=", ">", ">=", "==", "!="]
-FORMS = ["plain", "var", "elem", "prop", "assign"]
+FORMS = ["plain", "var", "elem", "prop", "assign", "shadow-param", "shadow-block"]
 
 
 def in_i64(n):
@@ -60,6 +60,13 @@ def op_lines(a, op, b, form):
         return [f"xs[0] = {A}", f"xs[0] {op}= {B}", "print(xs[0])"]
     if form == "prop":
         return [f"o.k = {A}", f"o.k {op}= {B}", "print(o.k)"]
+    if form == "shadow-param":
+        # the target is a parameter with the name of an outer variable: the update stays in the parameter
+        return ["x = 77", "{", "    fn sp(x) {", f"        x {op}= {B}", "        print(x)", "        return 0", "    }", f"    sp({A})", "}",
+                "if x != 77 {", '    print("the outer variable changed")', "}"]
+    if form == "shadow-block":
+        return ["x = 77", "{", f"    x := {A}", f"    x {op}= {B}", "    print(x)", "}",
+                "if x != 77 {", '    print("the outer variable changed")', "}"]
     raise ValueError(form)
 
 
